@@ -41,6 +41,10 @@ def gen_case(rng):
         lp[1] = lp[0]                                    # two levels with equal probability
     om['probs'] = [[l, p] for l, p in zip(levels, lp)]
     om['keyspace'] = [[l, len(lv.get(l, []))] for l in range(0, 19)]
+    if rng.random() < 0.5:
+        # omen_keyspace.txt is informational (status report); rulesets of older trainers, hand-trimmed models or the last counted level carry numbers that
+        # are too small or too large, or lack levels
+        om['keyspace'] = [[l, max(0, k + rng.choice([-3, -1, 1, 5, -k, -(k // 2), k]))] for l, k in om['keyspace'] if rng.random() < 0.9]
     spec['omen'] = om
     pm = rng.choice([0.5, 0.3, 0.25, 0.1])
     spec['base'].insert(rng.randrange(len(spec['base']) + 1), ['M', pm])
